@@ -8,6 +8,14 @@ class STLExplainer(LTLExplainer, StlAstVisitor):
 
     def __init__(self):
         LTLExplainer.__init__(self)
+        # bounds of a timed node in samples; set by the specification to the conversion its
+        # offline interpreter uses (unit suffixes, default unit, sampling period)
+        self.bounds_in_samples = None
+
+    def bounds(self, element):
+        if self.bounds_in_samples is None:
+            return element.begin, element.end
+        return self.bounds_in_samples(element)
 
 
     def visit(self, element, args):
@@ -27,9 +35,9 @@ class STLExplainer(LTLExplainer, StlAstVisitor):
         flag = args[1]
         op_signal = self.spec.results[element.children[0]]
         if flag:
-            op_intervals = explain_sat_timed_eventually(op_signal, intervals, element.begin, element.end)
+            op_intervals = explain_sat_timed_eventually(op_signal, intervals, *self.bounds(element))
         else:
-            op_intervals = explain_unsat_timed_eventually(op_signal, intervals, element.begin, element.end)
+            op_intervals = explain_unsat_timed_eventually(op_signal, intervals, *self.bounds(element))
         self.explanations[element.name] = intervals
         self.visit(element.children[0], [op_intervals, flag])
 
@@ -38,9 +46,9 @@ class STLExplainer(LTLExplainer, StlAstVisitor):
         flag = args[1]
         op_signal = self.spec.results[element.children[0]]
         if flag:
-            op_intervals = explain_sat_timed_always(op_signal, intervals, element.begin, element.end)
+            op_intervals = explain_sat_timed_always(op_signal, intervals, *self.bounds(element))
         else:
-            op_intervals = explain_unsat_timed_always(op_signal, intervals, element.begin, element.end)
+            op_intervals = explain_unsat_timed_always(op_signal, intervals, *self.bounds(element))
         self.explanations[element.name] = intervals
         self.visit(element.children[0], [op_intervals, flag])
 
@@ -52,9 +60,9 @@ class STLExplainer(LTLExplainer, StlAstVisitor):
         flag = args[1]
         op_signal = self.spec.results[element.children[0]]
         if flag:
-            op_intervals = explain_sat_timed_once(op_signal, intervals, element.begin, element.end)
+            op_intervals = explain_sat_timed_once(op_signal, intervals, *self.bounds(element))
         else:
-            op_intervals = explain_unsat_timed_once(op_signal, intervals, element.begin, element.end)
+            op_intervals = explain_unsat_timed_once(op_signal, intervals, *self.bounds(element))
         self.explanations[element.name] = intervals
         self.visit(element.children[0], [op_intervals, flag])
 
@@ -63,9 +71,9 @@ class STLExplainer(LTLExplainer, StlAstVisitor):
         flag = args[1]
         op_signal = self.spec.results[element.children[0]]
         if flag:
-            op_intervals = explain_sat_timed_historically(op_signal, intervals, element.begin, element.end)
+            op_intervals = explain_sat_timed_historically(op_signal, intervals, *self.bounds(element))
         else:
-            op_intervals = explain_unsat_timed_historically(op_signal, intervals, element.begin, element.end)
+            op_intervals = explain_unsat_timed_historically(op_signal, intervals, *self.bounds(element))
         self.explanations[element.name] = intervals
         self.visit(element.children[0], [op_intervals, flag])
 
